@@ -105,6 +105,21 @@ func main() {
 	}
 	optRepo = *repo
 	switch cmd {
+	case "ssa":
+		cs, _ := LoadContracts(*repo)
+		prog, pkgs, err := loadProgram(*repo, nil)
+		if err != nil {
+			fmt.Println(err)
+			os.Exit(2)
+		}
+		v := &Verifier{prog: prog, pkgs: pkgs, cs: cs}
+		if fn := v.findFunc(prop); fn != nil {
+			fn.WriteTo(os.Stdout)
+			for _, af := range fn.AnonFuncs {
+				af.WriteTo(os.Stdout)
+			}
+		}
+		os.Exit(0)
 	case "check":
 		os.Exit(runCheck(prop, *repo, *verifDir, *tier, *only, *workers, *verbose, *noEvidence))
 	default:
